@@ -41,6 +41,7 @@ def run_rules(mod, chk):
         generic.delay_names(chk)
         generic.round_once_last(chk)
         generic.loops_iterate(chk)
+        generic.params_not_cross_bound(chk)
     chk.repo.on_func = None
     return chk
 
